@@ -1,5 +1,6 @@
 import FsutilModel.Props.C02
 import FsutilModel.Lemmas.C05Vanish
+import FsutilModel.DiffOrder
 /-! # C05 — Change notifications mirror exactly what changed (listing level) -/
 namespace Fsm.C05
 open D
@@ -50,5 +51,18 @@ theorem every_removal_notified (none : Bool) (L U : List StatE)
     exact hall l hl (by simp)
   rw [hU0] at hconv
   exact vanish_cause byteOrd _ _ l.path hL0 hconv
+
+/-- Each changed path is notified once: for every pair of strictly ascending listings (any size), the paths of the
+notifications come in strictly ascending protocol order, hence no path is reported twice — whether as add, modify or
+delete, with either differ. -/
+theorem each_path_notified_once (none : Bool) (L U : List StatE)
+    (hL : Sorted byteOrd (L.map StatE.toEnt)) (hU : Sorted byteOrd (U.map StatE.toEnt)) :
+    ((diffB none L U).map evPath).Pairwise (fun a b => byteOrd.lt a b = true) ∧ ((diffB none L U).map evPath).Nodup := by
+  have h := diff_ascending byteOrd none (L.length + U.length + 1) (L.map StatE.toEnt) (U.map StatE.toEnt) Option.none hL hU
+  refine ⟨h, List.Pairwise.imp ?_ h⟩
+  intro a b hlt hab
+  subst hab
+  rw [byteOrd.lt_irrefl] at hlt
+  cases hlt
 
 end Fsm.C05
